@@ -629,7 +629,8 @@ class Check:
                     for r in roots:
                         if d == r["top"] or d.startswith(r["top"] + "/"):
                             names.append(r["sp"] + d[len(r["top"]):])
-                    if names and not any(lz(n) in res.stderr for n in names):
+                    # (a name that is not valid UTF-8 may be given lossily or byte for byte)
+                    if names and not any(lz(n) in res.stderr or n.encode("utf-8", "surrogateescape") in res.stderr for n in names):
                         viols.append(Violation(PROP, "C17.A.stderr", ["C17.A", "path_not_named", fkind, shape],
                                                {"query": q, "dir": d, "stderr": res.stderr[:400].decode("utf-8", "replace")}))
                         break
@@ -660,7 +661,7 @@ class Check:
                             continue  # the child itself raced away (vanished / replaced by a file): nothing left to report
                         if n["type"] == "dir" and n["path"].rsplit("/", 1)[0] == P and (r["maxd"] == 0 or lvlP + 1 < r["maxd"]) and {"stat", "realpath", "opendir"} <= full:
                             name = r["sp"] + n["path"][len(r["top"]):]
-                            if res.status != 1 or lz(name) not in res.stderr:
+                            if res.status != 1 or (lz(name) not in res.stderr and name.encode("utf-8", "surrogateescape") not in res.stderr):
                                 viols.append(Violation(PROP, "C17.A.silent", ["C17.A", "unlistable_directory_skipped_silently", "unsearchable_parent", shape],
                                                        {"query": q, "parent": P, "directory": n["path"], "status": res.status, "stderr": res.stderr[:300].decode("utf-8", "replace")}))
                                 break
